@@ -198,6 +198,8 @@ package xtype
 //@   ensures result0 == nil ==> (forall y int :: 0 <= y && y < t.StructType.NumFields() ==> t.StructType.Field(y).Name() != name)
 //@   ensures result0 == nil && t.Named ==> (forall y int :: 0 <= y && y < t.NamedType.NumMethods() ==> t.NamedType.Method(y).Name() != name)
 //@   ensures result0 != nil ==> len(result0.Path) == len(path) + 1 && result0.Path[len(path)] == name
+//@   loop 1 invariant same(t, old(t)) && same(path, old(path)) && name == old(name)
+//@   loop 2 invariant same(t, old(t)) && same(path, old(path)) && name == old(name)
 //@   loop 1 invariant 0 <= y && (forall z int :: 0 <= z && z < y ==> t.StructType.Field(z).Name() != name)
 //@   loop 2 invariant 0 <= y && (forall z int :: 0 <= z && z < y ==> t.NamedType.Method(z).Name() != name)
 //@   loop 2 invariant forall z int :: 0 <= z && z < t.StructType.NumFields() ==> t.StructType.Field(z).Name() != name
